@@ -850,7 +850,7 @@ MUTANTS += [
          edits=[(REC, '    buffer.extend_from_slice(queue.as_bytes());\n', '')]),
     dict(name='truncate_keeps_payload_bytes', props=['C16'], rules=['MA5'], desc='partial truncation drains the metas but not the payload buffer',
          edits=[(Q, '        self.concatenated_records\n            .truncate_head(..start_offset_to_keep);\n', '')]),
-    dict(name='end_of_log_test_inverted', props=['C08'], rules=['FR3'], desc='get_frame_header reports NotAvailable for non-zero headers',
+    dict(name='end_of_log_test_inverted', props=['C08'], rules=['FR3z'], desc='get_frame_header reports NotAvailable for non-zero headers',
          edits=[(FRD, 'if header_bytes == [0u8; HEADER_LEN] {', 'if header_bytes != [0u8; HEADER_LEN] {')]),
     dict(name='tracker_keeps_three_files', props=['C06'], rules=['GC6'], desc='take_first_unused keeps at least 3 files while the trigger fires at 2',
          edits=[(FNUM, 'if self.files.len() < 2 {', 'if self.files.len() <= 2 {')]),
